@@ -910,3 +910,13 @@ func absInt(i int) int {
 	}
 	return i
 }
+
+// SetPath sets a dotted path in a copy-free manner (used by oracles outside the package).
+func SetPath(v interface{}, path string, val interface{}) (interface{}, error) {
+	return setSegs(v, strings.Split(path, "."), val)
+}
+
+// UnsetPath removes a dotted path.
+func UnsetPath(v interface{}, path string) (interface{}, bool) {
+	return unsetSegs(v, strings.Split(path, "."))
+}
